@@ -182,15 +182,14 @@ Section Loop.
   Hypothesis Hnd : NoDup (map fst A).
 
   Lemma pos_step fuel p st tok rest Pdone :
-    ps_args st = place A Pdone -> shape A (Pdone ++ [tok]) = true -> (p = true -> plain_tok tok = true) ->
+    ps_args st = place A Pdone -> shape A (Pdone ++ [tok]) = true -> (p = true -> pos_tok tok = true) ->
     loop (S fuel) g len p st (tok :: rest) =
     loop fuel g len p {| ps_args := place A (Pdone ++ [tok]); ps_opts := ps_opts st |} rest.
   Proof.
     intros Hst Hsh Hp. rewrite loop_arg.
     - destruct st as [pa po]. cbn [ps_args ps_opts] in *. subst pa.
       pose proof (parg_place g len po tok A [] [] Pdone HA Hnm Hnd eq_refl Hsh) as H. cbn [app] in H. rewrite H. reflexivity.
-    - intros ->. specialize (Hp eq_refl). unfold plain_tok in Hp. apply andb_prop in Hp as [H1 H2].
-      apply negb_true_iff in H2. split; assumption.
+    - exact Hp.
   Qed.
 
   Lemma loop_tail : forall tl Pdone st fuel,
@@ -241,8 +240,9 @@ Section Loop.
           rewrite st_evs_opts, fold_left_app. reflexivity.
         * intros Hlk. rewrite Hlk in Hla. destruct r as [|it2 r']; [exact Htl|].
           cbn [flat_map]. rewrite <- app_assoc. cbn [items_ok] in Hr. apply andb_prop in Hr as [Hr _].
-          apply andb_prop in Hr as [Hit2 _]. apply (item_first_dash f g it2 _ Hit2).
-          destruct it2; try reflexivity. discriminate.
+          apply andb_prop in Hr as [Hit2 _].
+          destruct (is_pos it2) eqn:Hp2; [|apply (item_first_dash f g it2 _ Hit2 Hp2)].
+          destruct it2 as [| | | |s2]; try discriminate. apply str_eqb_eq in Hla. subst s2. reflexivity.
   Qed.
 End Loop.
 
